@@ -144,3 +144,5 @@ func extractC16(pkgs map[string]*Pkg) {
 	p.factCmp("eui64Byte12", "GetMacAddressFromEUI64", "ip[12]")
 	p.factCmp("encapTypeA", "EncapsulateRelay", "mType")
 }
+
+func init() { extraExtractors = append(extraExtractors, extractC16) }
